@@ -21,7 +21,12 @@ rule = ("scripts = 'a handles n', a set-up (shared / immutable / no-copy / typed
         "negative), pairs of ops, random histories; array::set(const value &) for string/int32/double values; "
         "map<uint8_t,uint8_t> set/get of present and absent keys on private and shared maps (singles, all pairs, random); "
         "pointer_array<T> insert/set/swap (inside, at and outside the elements, negative)/compact/resize on private and "
-        "shared arrays (singles, all pairs, random); mpt_buffer_insert called directly with positions up to SIZE_MAX. "
+        "shared arrays (singles, all pairs, random); mpt_buffer_insert called directly with positions up to SIZE_MAX; "
+        "mpt_values_prepare (mptplot) with positive and negative counts on shared and unshared arrays of doubles; an "
+        "io::buffer over an array that consumes and compacts (encode_array::shift); third part (harness/drv_refs.c): raw "
+        "data stages — mpt_stage_data + mpt_values_prepare on an array of value_store elements through 3 handles (4 "
+        "set-ups x 18 ops, all pairs, triples on the shared set-up, random), S = the nested value read through every "
+        "handle is independent of the others. "
         "Non-trivial = a mutating op succeeded through a handle whose "
         "buffer was shared (refcount >= 2) or immutable at that moment, counted per distinct script")
 assumptions = [
@@ -38,7 +43,9 @@ assumptions = [
     "buffer::copy/buffer::move/buffer::skip/buffer::trim are buffer-level primitives that work in place; they are driven "
     "only on the private buffer obtained by detach() (trim, skip); copy/move are not driven",
 ]
-trusted = ["hand-written model MptModel/Impl/Heap.lean tied to mptcore/array/*.c by harness/drv_array.c",
+trusted = ["hand-written model MptModel/Impl/Heap.lean tied to mptcore/array/*.c and mptplot/values/values_prepare.c by harness/drv_array.c",
+           "stage part: hand-written model MptModel/Impl/Refs.lean (stagePut) tied to mptplot/values/stage_data.c, value_store_traits.c "
+           "and values_prepare.c by harness/drv_refs.c",
            "hand-written model MptModel/Impl/HeapXX.lean tied to mpt++/array.cpp and the array.h templates by harness/drvxx_array.cpp "
            "(mpt++/array.cpp is compiled into the driver with UBSan's vptr check off: the buffers are C objects with a hand-made vtable)",
            "harness reads the private refcount of buffer_alloc.c through its layout (internals section only)"]
